@@ -98,11 +98,17 @@ def run_case(spec, ctx):
 
     if not rg.is_boundary(E) and not rg.has(E, rg.is_boundary):
         # ---------------- interior membership ------------------------------------------
+        # one row asked alone BEFORE the batch (an answer must not depend on what the same domain
+        # object was asked earlier, nor on the batch a row is part of)
+        env_one = {kk: v[:1] for kk, v in env.items()}
+        one = _lib_contains(ctx, D, env_one, "_contains(single row)", top)
         vals = _lib_contains(ctx, D, env, "_contains", top)
         if vals is None:
             return {"nontrivial": False, "classes": classes, "summary": summary}
         st = rg.status(E, env, tol["tol_in"])
         decided = st != rg.UNDECIDED
+        if one is not None and decided[0] and bool(one[0]) != bool(vals[0]):
+            ctx.violation("row-dependence", top, "the answer for a row asked alone differs from its answer inside the batch")
         bad = ((st == rg.IN) & ~vals) | ((st == rg.OUT) & vals)
         if bad.any():
             idx = np.where(bad)[0]
